@@ -10,6 +10,7 @@ Decided statically (E1 layout types + structural pairing rules):
   operands       every binary method uses the values of both operands on the non-scalar path
   result-domain  project/transpose answer in the requested order; binary ops answer over the merged domain
   aggregation-mode  project reduces with the reducer the caller asked for (read once per mode, tests on the mode decided)
+  cv-difference       CliqueVector.__sub__ is the sum with the operand negated by scalar multiplication (not Factor's log-domain `-`)
   results-writable    outside expand no read-only broadcast view reaches a returned factor (in-place forms work on derived factors)
   operators-allocate  the non in-place operators / reductions return a table allocated by the call (never an operand or a view of it)
   out-contract   every `x.exp/log/copy(out=y)` call site passes the receiver itself
@@ -146,6 +147,7 @@ def run(ctx):
     check_aggregation_mode(ctx, methods['project'])
     check_operators_allocate(ctx)
     check_results_writable(ctx)
+    check_cv_difference(ctx)
     check_axes_primitive(ctx)
     check_clique_vector(ctx)
     from .C15 import none_tests
@@ -206,6 +208,50 @@ def check_operators_allocate(ctx):
                                          'on some path (a view of) storage of the %s: an in-place update of the result then rewrites the operand' % v),
                construct='ownership of the result of Factor.' + name)
     ctx.floor('operators checked for ownership of their result', n, 8)
+
+
+def check_cv_difference(ctx):
+    """CliqueVector.__sub__ is the sum with the NEGATED operand - negation by scalar multiplication, `self + -1*other`, for the whole
+    collection or clique by clique.  Factor's own `-` is another operation (the log-domain difference: a subtrahend of -inf is dropped, nothing
+    is clipped), so `self[cl] - other[cl]` gives other tables as soon as a table holds -inf / +inf (structural zeros, overflowed gradients)."""
+    CV = 'src/mbi/clique_vector.py'
+    if not ctx.repo.has_func(CV, 'CliqueVector.__sub__'):
+        raise AnalysisError('anchor vanished: CliqueVector.__sub__')
+    fi = ctx.repo.func(CV, 'CliqueVector.__sub__')
+    ctx.analysed(fi)
+    o = fi.params[1]
+    NEG = ('-1*%s', '(-1)*%s', '%s*-1', '%s*(-1)', '-1.0*%s', '-%s')
+    n = 0
+    for r in [x for x in ast.walk(fi.node) if isinstance(x, (ast.Return, ast.Assign))]:
+        v = r.value
+        if v is None:
+            continue
+        if isinstance(v, ast.Call) and U(v.func) == 'CliqueVector' and len(v.args) == 1 and isinstance(v.args[0], ast.DictComp):
+            v = v.args[0]
+        if isinstance(v, ast.BinOp) and U(v.left) == 'self':
+            t = U(v.right).replace(' ', '')
+            ok = isinstance(v.op, ast.Add) and t in [x % o for x in NEG]
+            n += 1
+            ctx.ob('cv-difference', fi, r, ok, 'the difference of two collections is `self + -1*%s`; the source computes `%s`' % (o, U(v)[:80]))
+        elif isinstance(v, ast.DictComp) and len(v.generators) == 1 and U(v.generators[0].iter) == 'self' and isinstance(v.value, ast.BinOp):
+            c = U(v.generators[0].target)
+            e = v.value
+            lt, rt = U(e.left).replace(' ', ''), U(e.right).replace(' ', '')
+            operands = ['%s[%s]' % (o, c), o]
+            if lt != 'self[%s]' % c:
+                raise AnalysisError('CliqueVector.__sub__: per-clique expression `%s` is in no recognised form' % U(e)[:80])
+            n += 1
+            if isinstance(e.op, ast.Add) and rt in [x % y for x in NEG for y in operands]:
+                ctx.ob('cv-difference', fi, r, True, 'clique by clique: `%s` (negation by scalar multiplication, then the sum)' % U(e)[:80])
+            elif isinstance(e.op, ast.Sub) and rt == o:
+                ctx.ob('cv-difference', fi, r, True, 'clique by clique minus a scalar: `%s`' % U(e)[:80]) if False else \
+                    ctx.ob('cv-difference', fi, r, True, 'a scalar is subtracted from every table: `%s`' % U(e)[:80])
+            elif isinstance(e.op, ast.Sub) and rt == '%s[%s]' % (o, c):
+                ctx.ob('cv-difference', fi, r, False, 'clique by clique through Factor.__sub__ (`%s`): that is the LOG-DOMAIN difference - a subtrahend of -inf is '
+                       'dropped and nothing is clipped - not `self + -1*other`; the two differ as soon as a table holds -inf / +inf' % U(e)[:80])
+            else:
+                raise AnalysisError('CliqueVector.__sub__: per-clique expression `%s` is in no recognised form' % U(e)[:80])
+    ctx.floor('forms of CliqueVector.__sub__ judged', n, 1)
 
 
 def check_results_writable(ctx):
